@@ -17,7 +17,7 @@ REQUIRED = {"shape_channels": {"quick": 100, "thorough": 600}, "finite": {"quick
             "cutoff": {"quick": 10, "thorough": 80}, "shaping": {"quick": 10, "thorough": 80}, "fun_equals_sampled": {"quick": 20, "thorough": 150},
             "multi_channel": {"quick": 6, "thorough": 40}, "rejects_invalid": {"quick": 10, "thorough": 30}}
 ASSUMPTIONS = ["jax.random is trusted to recompute the documented key splits", "float64"]
-TIMEOUT = {"quick": 900, "thorough": 3000}
+TIMEOUT = {"quick": 2400, "thorough": 7200}
 EPS = np.finfo(float).eps
 
 
